@@ -6,7 +6,7 @@
                                                  _should_skip (:190), _measure_statistic (:149),
                                                  _get_operation_map (:101), FieldMap._init_operation / __getitem__
                                                  (:297, :309), graphql_cases (:321, the call of the strategy factory)
-     src/schemathesis/specs/graphql/_cache.py    OperationCache (operations keyed by FIELD NAME only)
+     src/schemathesis/specs/graphql/_cache.py    OperationCache (operations keyed by type name + field name since fe80b0ba)
      src/schemathesis/specs/graphql/scalars.py   scalar (:15), get_extra_scalar_strategies (:33), the merged table
      src/schemathesis/filters.py                 Matcher / Filter / FilterSet.match as used by _should_skip
      src/schemathesis/transport/prepare.py       prepare_body (:48) for a GraphQL schema
@@ -25,7 +25,8 @@
      - _measure_statistic walks the RAW introspection JSON (every entry of types whose name equals the root type
        name, every entry of its fields list) while get_all_operations walks the CLIENT schema built from it;
      - _measure_statistic hands the filters a dummy operation whose definition is None ([c_def = None]);
-     - the operation cache used by schema[type][field] is keyed by the field name alone. *)
+     - the operation cache used by schema[type][field] is keyed by the string type.field (fe80b0ba); the earlier
+       field-name-only key is kept as a labelled sentinel ([lookup_fk]). *)
 From Coq Require Import List NArith ZArith Bool.
 From Verif Require Import Common.Str.
 Import ListNotations.
@@ -324,24 +325,44 @@ Fixpoint cache_get (k : str) (ca : cache) : option op :=
   | (k', o) :: r => if str_eqb k' k then Some o else cache_get k r
   end.
 
-Definition lookup (c : client) (ca : cache) (key field : str) : lres * cache :=
+(* FieldMap._init_operation with an explicit cache-key function of (root type name, field name) *)
+Definition lookup_with (keyf : str -> str -> str) (c : client) (ca : cache) (key field : str) : lres * cache :=
   match root_by_name c key with
   | None => (LNoType, ca)
   | Some (r, ct) =>
-      match cache_get field ca with
-      | Some o => (LOp o, ca)                                  (* cache hit: whatever was stored under the field name *)
+      let k := keyf (ct_name ct) field in
+      match cache_get k ca with
+      | Some o => (LOp o, ca)                                  (* cache hit: whatever was stored under the key *)
       | None =>
           if mem_str field (ct_fields ct)
-          then let o := {| o_root := r; o_type := ct_name ct; o_field := field |} in (LOp o, (field, o) :: ca)
+          then let o := {| o_root := r; o_type := ct_name ct; o_field := field |} in (LOp o, (k, o) :: ca)
           else (LNoField, ca)
       end
   end.
 
-Fixpoint run_lookups (c : client) (ca : cache) (h : list (str * str)) : list lres :=
+Fixpoint run_lookups_with (keyf : str -> str -> str) (c : client) (ca : cache) (h : list (str * str)) : list lres :=
   match h with
   | [] => []
-  | (key, field) :: rest => let '(res, ca') := lookup c ca key field in res :: run_lookups c ca' rest
+  | (key, field) :: rest => let '(res, ca') := lookup_with keyf c ca key field in res :: run_lookups_with keyf c ca' rest
   end.
+
+(* the code as it is (since fe80b0ba): key = f[{operation_type.name}.{field_name}] *)
+Definition cache_key (tname field : str) : str := mk_label tname field.
+Definition lookup := lookup_with cache_key.
+Definition run_lookups := run_lookups_with cache_key.
+
+(* SENTINEL - the cache as it was before fe80b0ba, keyed by the field name alone.  Kept only so that the defect stays
+   stated and refuted (C20_field_keyed_cache_refuted) and so that a regression is recognised by the harness. *)
+Definition cache_key_fk (tname field : str) : str := field.
+Definition lookup_fk := lookup_with cache_key_fk.
+Definition run_lookups_fk := run_lookups_with cache_key_fk.
+
+(* well-formedness of names: a root type name has no dot (GraphQL names are [_a-zA-Z0-9]+; graphql-core refuses
+   anything else when the client schema is built), so the string key determines (type name, field name) *)
+Definition dotless (s : str) : bool := negb (mem dot s).
+Definition root_names_dotless (c : client) : bool :=
+  match c_query c with Some ct => dotless (ct_name ct) | None => true end &&
+  match c_mutation c with Some ct => dotless (ct_name ct) | None => true end.
 
 (* what the lookup should return: independent of the history *)
 Definition lookup_spec (c : client) (key field : str) : lres :=
@@ -351,7 +372,7 @@ Definition lookup_spec (c : client) (key field : str) : lres :=
                     then LOp {| o_root := r; o_type := ct_name ct; o_field := field |} else LNoField
   end.
 
-(* region predicate: no field name is looked up under two different type keys in this history *)
+(* region predicate of the SENTINEL theorems: no field name is looked up under two different type keys *)
 Definition hist_consistent (h : list (str * str)) : bool :=
   forallb (fun p => forallb (fun q => implb (str_eqb (snd p) (snd q)) (str_eqb (fst p) (fst q))) h) h.
 
